@@ -215,6 +215,19 @@ fn do_call(kvs: &KeyValueStore, t: usize, hist: &Hist, spec: &Value) {
             record(t, format!("scan -> {out:?}"));
             Call::Scan(out)
         }
+        // a batch the store refuses after it has joined the wait list (a key longer than
+        // MAX_KEY_LEN): the call returns an error, and nobody queued behind it may be left asleep
+        "badbatch" => {
+            let k = vec![b'k'; sst::MAX_KEY_LEN + 1];
+            let mut wb = WriteBatch::with_capacity(1);
+            wb.put(&k, b"v");
+            record(t, "batch(oversize key) call");
+            if kvs.write(wb).is_ok() {
+                finding("oversize-key-accepted", "a key longer than MAX_KEY_LEN was accepted".to_string());
+            }
+            record(t, "batch(oversize key) -> Err");
+            return;
+        }
         "flush" => {
             record(t, "flush-iteration call");
             set_step_mode(StepMode::StepNoWait);
@@ -919,6 +932,12 @@ fn configs(prop: &str, thorough: bool) -> Vec<Value> {
                     "options": {"l0-write-stall-threshold-files": stall, "l0-mandatory-compaction-threshold-files": mand},
                     "compactors": k, "files": 3, "limits": lim()}));
             }
+            // a refused write against writers queued behind it (the wait-list hand-over on the
+            // error path, down to the condition variable)
+            v.push(json!({"harness": "rw", "name": "refused-write-vs-put", "height": 1, "template": [],
+                "threads": [[["badbatch"]], [["put", "a", "1"], ["get", "a"]]], "limits": lim()}));
+            v.push(json!({"harness": "rw", "name": "refused-write-vs-two-puts", "height": 1, "template": [],
+                "threads": [[["badbatch"]], [["put", "a", "1"]], [["put", "b", "1"]]], "limits": lim()}));
             v.push(json!({"harness": "stall", "name": "nostall-empty",
                 "template": [], "options": {"l0-write-stall-threshold-files": "2", "l0-mandatory-compaction-threshold-files": "1"},
                 "compactors": 1, "puts": 1, "flushes": 1, "limits": lim()}));
